@@ -96,7 +96,8 @@ func (su *sequenceUpdates) getSequenceUpdates() error {
 	}
 
 	updates, err := client.GetSequenceUpdates(su.ctx, &proto.GetSequenceUpdatesRequest{
-		Key: su.prefixKey,
+		Shard: shard,
+		Key:   su.prefixKey,
 	})
 	if err != nil {
 		if su.ctx.Err() != nil {
